@@ -248,6 +248,7 @@ fn check_bad(case: &BadCase, ctx: &mut Ctx) -> Result<(), Fail> {
 pub fn property() -> Property {
     Property {
         id: "C12",
+        quick_mult: 60,
         rule: "data sets of 2..150 (quick) / 300 (thorough) rows in 1..6 dimensions: continuous, {0..3}^d lattice, blobs, duplicated rows, with at least k distinct rows by construction; k in 2..8, max_iter 1..100, a generated 64-bit seed for the k-means++ draw (hook); for the assignment step 1..8 centroids that are data rows, random, coincident, far outside the data, lattice midpoints (exact ties) or near data rows. non-trivial = k >= 3, n >= 20 and >= 8 distinct rows; distinct = distinct serialised case",
         assumptions: vec![
             "the random initialisation is put under harness control by the cfg(smartcore_verif) schedule-seed hook in kmeans_plus_plus; with the hook off the library draws from thread_rng".into(),
